@@ -53,9 +53,12 @@ fn subst_node(s: &Shape, from: &Shape, to: &Shape) -> Shape {
 }
 
 fn defs() -> String {
-    // UserId is also a project-defined serde struct; Other is an unrelated type that must stay
+    // UserId is also a project-defined serde struct; Other is an unrelated type that must stay; so
+    // must the project types whose names merely start or end with a mapped name
     format!(
-        "{}#[derive(Debug, Clone, Serialize, Deserialize)]\npub struct UserId {{ pub raw: u64 }}\n#[derive(Debug, Clone, Serialize, Deserialize)]\npub struct Other {{ pub n: i32, pub tag: String }}\n#[tauri::command]\npub fn keep_other(o: Other) -> Option<Other> {{ Some(o) }}\n",
+        "{}#[derive(Debug, Clone, Serialize, Deserialize)]\npub struct UserId {{ pub raw: u64 }}\n#[derive(Debug, Clone, Serialize, Deserialize)]\npub struct Other {{ pub n: i32, pub tag: String }}\n#[tauri::command]\npub fn keep_other(o: Other) -> Option<Other> {{ Some(o) }}\n\
+#[derive(Debug, Clone, Serialize, Deserialize)]\npub struct UuidHolder {{ pub n: i32 }}\n#[derive(Debug, Clone, Serialize, Deserialize)]\npub struct PathBufList {{ pub n: i32 }}\n#[derive(Debug, Clone, Serialize, Deserialize)]\npub struct UserIdentity {{ pub n: i32 }}\n#[derive(Debug, Clone, Serialize, Deserialize)]\npub struct MyUuid {{ pub n: i32 }}\n#[derive(Debug, Clone, Serialize, Deserialize)]\npub struct DateTimeRange {{ pub n: i32 }}\n\
+#[derive(Debug, Clone, Serialize, Deserialize)]\npub struct Lookalikes {{ pub a: UuidHolder, pub b: Vec<PathBufList>, pub c: Option<UserIdentity>, pub d: HashMap<String, MyUuid>, pub e: (DateTimeRange, i32) }}\n#[tauri::command]\npub fn keep_lookalikes(l: Lookalikes, u: UuidHolder) -> Vec<MyUuid> {{ vec![] }}\n",
         gen::leaf_defs()
     )
 }
